@@ -121,6 +121,66 @@ func main() {
 		}
 		fmt.Println("total", tot, "undischarged", bad)
 		return
+	case "multi":
+		// skyverif multi <id...|all>: one load, every listed property in turn (no evidence written); exit 1 if any fails
+		os.Setenv("VERIF_NO_EVIDENCE", "1")
+		overlay, env, err := witnessOverlayFromEnv()
+		if err != nil {
+			os.Exit(2)
+		}
+		p, err := Load(overlay, env)
+		if err != nil {
+			fmt.Fprintln(os.Stderr, "no verdict:", err)
+			os.Exit(2)
+		}
+		ids := os.Args[2:]
+		if len(ids) == 1 && ids[0] == "all" {
+			ids = nil
+			for k := range props {
+				ids = append(ids, k)
+			}
+			sort.Strings(ids)
+		}
+		worst := 0
+		for _, id := range ids {
+			f, ok := props[id]
+			if !ok {
+				continue
+			}
+			code := func() (code int) {
+				defer func() {
+					if e := recover(); e != nil {
+						fmt.Printf("property %s: checker panic: %v\n", id, e)
+						code = 2
+					}
+				}()
+				r := NewRun(id, "quick", p)
+				if lv, ok := propLevel[id]; ok {
+					r.Level = lv
+				}
+				f(r)
+				return r.Finish()
+			}()
+			fmt.Printf("MULTI %s rc=%d\n", id, code)
+			if code > worst {
+				worst = code
+			}
+		}
+		os.Exit(worst)
+	case "fns":
+		p, err := Load(nil, nil)
+		if err != nil {
+			os.Exit(2)
+		}
+		for _, fn := range p.ModFns {
+			if strings.HasPrefix(FnName(fn), os.Args[2]) {
+				fmt.Println(FnName(fn))
+				if len(os.Args) > 3 {
+					dumpFnObj(p, fn)
+				}
+			}
+		}
+		return
 	case "locks":
 		p, err := Load(nil, nil)
 		if err != nil {
@@ -270,6 +330,10 @@ func dumpFn(p *Program, ref string) {
 		fmt.Println("UNRESOLVED", ref)
 		return
 	}
+	dumpFnObj(p, fn)
+}
+
+func dumpFnObj(p *Program, fn *ssa.Function) {
 	ff := p.Facts(fn)
 	fmt.Printf("== %s (%s) blocks=%d loops=%d\n", FnName(fn), p.Pos(fn.Pos()), len(fn.Blocks), len(ff.loops))
 	for _, lp := range ff.loops {
